@@ -584,6 +584,7 @@ func runC05(c *Ctx) {
 	runC05Round3(c)
 	runC05ThrottleFloor(c)
 	runC05Shares5(c)
+	runC05OptionOrder(c)
 	if a := findPQ(p); a != nil {
 		sub := NewCtx(p, "C01", c.Tier, c.Config)
 		runC01Round3(sub, a)
